@@ -78,6 +78,8 @@ pub struct WorldCfg {
 	/// chance that a by-reference member is an empty (zero-sized) owned collection
 	/// located at the address of some leaf
 	pub p_zst_member: u8,
+	/// chance that a by-reference member list gets a lock stored by value
+	pub p_own_member: u8,
 	pub max_members: usize,
 	pub allow_dups: bool,
 	/// chance (per by-reference collection) that duplicates are left in even when
@@ -104,6 +106,7 @@ impl Default for WorldCfg {
 			p_pois_coll: 30,
 			p_copy_permuted: 60,
 			p_zst_member: 0,
+			p_own_member: 0,
 			max_members: 5,
 			allow_dups: false,
 			p_allow_dup: 0,
@@ -226,7 +229,18 @@ pub fn gen_world(src: &mut Src<'_>, cfg: &WorldCfg) -> WorldSpec {
 		if !earlier.is_empty() && src.chance(cfg.p_copy_permuted) {
 			let j = earlier[src.pick(earlier.len())];
 			if let Content::ByRef(m) = &w.colls[j].content {
-				let mut m = m.clone();
+				// a lock the earlier collection stores by value is the same lock
+				// only when it is reached through that collection
+				let accessible = !w.colls[j].pois;
+				let mut m: Vec<MemberSpec> = m
+					.iter()
+					.enumerate()
+					.filter_map(|(k, x)| match x {
+						MemberSpec::Own(_) if accessible => Some(MemberSpec::Inner(j, k)),
+						MemberSpec::Own(_) => None,
+						x => Some(x.clone()),
+					})
+					.collect();
 				let mut out = Vec::new();
 				while !m.is_empty() {
 					// small bytes pick from the back: the all-zero stream reverses the list
@@ -261,6 +275,13 @@ pub fn gen_world(src: &mut Src<'_>, cfg: &WorldCfg) -> WorldSpec {
 								}
 							}
 						}
+						if let Content::ByRef(ms) = &w.colls[j].content {
+							for k in 0..ms.len() {
+								if Sem::inner_member_accessible(&w.colls[j], k) {
+									cands.push(MemberSpec::Inner(j, k));
+								}
+							}
+						}
 					}
 				}
 				if cands.is_empty() {
@@ -274,6 +295,10 @@ pub fn gen_world(src: &mut Src<'_>, cfg: &WorldCfg) -> WorldSpec {
 					}
 				}
 				if cands.is_empty() {
+					continue;
+				}
+				if cfg.p_own_member > 0 && src.chance(cfg.p_own_member) {
+					cand_seq.push(MemberSpec::Own(gen_leaf(src, cfg)));
 					continue;
 				}
 				if cfg.p_zst_member > 0 && !w.leaves.is_empty() && src.chance(cfg.p_zst_member) {
@@ -665,7 +690,7 @@ pub struct ConcCfg {
 impl Default for ConcCfg {
 	fn default() -> Self {
 		ConcCfg {
-			world: WorldCfg { min_leaves: 2, min_colls: 2, max_colls: 5, ..Default::default() },
+			world: WorldCfg { min_leaves: 2, min_colls: 2, max_colls: 5, p_zst_member: 8, p_own_member: 10, ..Default::default() },
 			min_threads: 2,
 			max_threads: 4,
 			max_acq: 3,
